@@ -54,23 +54,25 @@ func c02Table() []GuardReq {
 	r.MinHits = 2
 	add(r)
 	// --- accumulator liveness (v2 parents carried in the transaction) ---
-	add(req("v2-live:SiacoinInputs", V2T, "call (consensus.ElementAccumulator).containsUnspentSiacoinElement(%ST%.Elements, %T2%.SiacoinInputs[*].Parent)", opF, "", "a v2 siacoin parent must be an unspent leaf of the base accumulator", ctxNotEphemeral))
-	add(req("v2-live:SiafundInputs", V2T, "call (consensus.ElementAccumulator).containsUnspentSiafundElement(%ST%.Elements, %T2%.SiafundInputs[*].Parent)", opF, "", "a v2 siafund parent must be an unspent leaf of the base accumulator", ctxNotEphemeral))
-	add(req("v2-live:FileContractRevisions", V2T, "call (consensus.ElementAccumulator).containsUnresolvedV2FileContractElement(%ST%.Elements, %T2%.FileContractRevisions[*].Parent)", opF, "", "a revised v2 contract must be an unresolved leaf"))
-	add(req("v2-live:FileContractResolutions", V2T, "call (consensus.ElementAccumulator).containsUnresolvedV2FileContractElement(%ST%.Elements, %T2%.FileContractResolutions[*].Parent)", opF, "", "a resolved v2 contract must be an unresolved leaf"))
+	add(req("v2-live:SiacoinInputs", V2T, "call (consensus.ElementAccumulator).containsLeaf(%ST%.Elements, call consensus.siacoinLeaf(const:false, %T2%.SiacoinInputs[*].Parent))", opF, "", "a v2 siacoin parent must be an unspent leaf of the base accumulator", ctxNotEphemeral))
+	add(req("v2-live:SiafundInputs", V2T, "call (consensus.ElementAccumulator).containsLeaf(%ST%.Elements, call consensus.siafundLeaf(const:false, %T2%.SiafundInputs[*].Parent))", opF, "", "a v2 siafund parent must be an unspent leaf of the base accumulator", ctxNotEphemeral))
+	add(req("v2-live:FileContractRevisions", V2T, "call (consensus.ElementAccumulator).containsLeaf(%ST%.Elements, call consensus.v2FileContractLeaf(const:false, nil, %T2%.FileContractRevisions[*].Parent))", opF, "", "a revised v2 contract must be an unresolved leaf"))
+	add(req("v2-live:FileContractResolutions", V2T, "call (consensus.ElementAccumulator).containsLeaf(%ST%.Elements, call consensus.v2FileContractLeaf(const:false, nil, %T2%.FileContractResolutions[*].Parent))", opF, "", "a resolved v2 contract must be an unresolved leaf"))
 	// --- ephemeral parents must have been created earlier in this block ---
 	add(req("v2-ephemeral-created:SiacoinInputs", V2T, "%MS%.sces[%MS%.elements[%T2%.SiacoinInputs[*].Parent.ID]].Created", opF, "", "an ephemeral siacoin parent must have been created earlier in the block", ctxEphemeral))
 	add(req("v2-ephemeral-known:SiacoinInputs", V2T, "ok:%MS%.elements[%T2%.SiacoinInputs[*].Parent.ID]", opF, "", "an ephemeral siacoin parent must be known to the MidState", ctxEphemeral))
 	add(req("v2-ephemeral-created:SiafundInputs", V2T, "%MS%.sfes[%MS%.elements[%T2%.SiafundInputs[*].Parent.ID]].Created", opF, "", "an ephemeral siafund parent must have been created earlier in the block", ctxEphemeral))
 	// --- v1 parents supplied in the block supplement ---
 	for _, x := range [][3]string{
-		{"SiacoinInputs", "containsUnspentSiacoinElement", "{consensus.V1BlockSupplement}.Transactions[*].SiacoinInputs[*]"},
-		{"SiafundInputs", "containsUnspentSiafundElement", "{consensus.V1BlockSupplement}.Transactions[*].SiafundInputs[*]"},
-		{"RevisedFileContracts", "containsUnresolvedFileContractElement", "{consensus.V1BlockSupplement}.Transactions[*].RevisedFileContracts[*]"},
-		{"StorageProofs", "containsUnresolvedFileContractElement", "{consensus.V1BlockSupplement}.Transactions[*].StorageProofs[*].FileContract"},
-		{"ExpiringFileContracts", "containsUnresolvedFileContractElement", "{consensus.V1BlockSupplement}.ExpiringFileContracts[*]"},
+		{"SiacoinInputs", "siacoinLeaf(const:false, ", "{consensus.V1BlockSupplement}.Transactions[*].SiacoinInputs[*]"},
+		{"SiafundInputs", "siafundLeaf(const:false, ", "{consensus.V1BlockSupplement}.Transactions[*].SiafundInputs[*]"},
+		{"RevisedFileContracts", "fileContractLeaf(const:false, nil, ", "{consensus.V1BlockSupplement}.Transactions[*].RevisedFileContracts[*]"},
+		{"StorageProofs", "fileContractLeaf(const:false, nil, ", "{consensus.V1BlockSupplement}.Transactions[*].StorageProofs[*].FileContract"},
+		{"ExpiringFileContracts", "fileContractLeaf(const:false, nil, ", "{consensus.V1BlockSupplement}.ExpiringFileContracts[*]"},
 	} {
-		add(req("v1-supplement-live:"+x[0], VB, "call (consensus.ElementAccumulator)."+x[1]+"(%ST%.Elements, "+x[2]+")", opF, "", "every v1 parent supplied in the block supplement must be a live (unspent / unresolved) leaf of the base accumulator"))
+		// written in terms of what the membership wrapper evaluates (containsLeaf of the unspent/unresolved leaf): a
+		// wrapper per flag value and a wrapper taking the flag are the same test (wrapper calls are expanded to their body)
+		add(req("v1-supplement-live:"+x[0], VB, "call (consensus.ElementAccumulator).containsLeaf(%ST%.Elements, call consensus."+x[1]+x[2]+"))", opF, "", "every v1 parent supplied in the block supplement must be a live (unspent / unresolved) leaf of the base accumulator"))
 	}
 	add(req("v1-supplement-count", VB, "len({consensus.V1BlockSupplement}.Transactions)", opNE, "len({types.Block}.Transactions)", "one supplement per v1 transaction"))
 	return t
